@@ -33,10 +33,17 @@ func (c07) Classes() []sim.Class {
 		cs = append(cs,
 			sim.Class{Name: "yielding", Engine: e, Quick: 600, Thorough: 30000, DeathIsViolation: true, RunTimeoutSec: 30, Batch: 40},
 			sim.Class{Name: "purespin", Engine: e, Quick: 300, Thorough: 15000, DeathIsViolation: true, RunTimeoutSec: 30, Batch: 20},
+			sim.Class{Name: "synctest-deadline", Engine: e, Quick: 120, Thorough: 6000, DeathIsViolation: true, RunTimeoutSec: 60, Batch: 10, Toolchain: "go1.26.8"},
 		)
 	}
 	return cs
 }
+
+// set by synctest.go (go >= 1.25 builds only)
+var (
+	synctestAvailable bool
+	runSynctest       func(t *tape.Tape, cfg sim.Config) sim.Result
+)
 
 func (c07) Describe() sim.Description {
 	return sim.Description{
@@ -46,7 +53,7 @@ func (c07) Describe() sim.Description {
 			"Oracle: the call returns (supervisor watchdog 30 s otherwise: hang = violation), the error is *sys.ExitError with the code of the cause, IsClosed() is true, and for yielding guests the number of host callbacks after the closed flag became visible is at most the number of host-call sites in the cycle (derived from the plan). " +
 			"Non-trivial: cause fired while the guest was inside the cycle (not before the call); distinct = (shape, padding, yield, cause, moment)",
 		RealCode: []string{"both engines with WithCloseOnContextDone(true)", "watcher goroutine CloseModuleOnCanceledOrTimeout", "FailIfClosed", "exit-code checks emitted by both lowerings"},
-		Stubs:    []string{"none; contexts are real context.WithCancel/WithTimeout (class synctest: under the fake clock)"},
+		Stubs:    []string{"none; contexts are real context.WithCancel/WithTimeout; class synctest-deadline runs them under testing/synctest's fake clock (deadlines of simulated minutes to hours, host callbacks sleeping simulated seconds to minutes)"},
 		Assumptions: []string{
 			"for pure spins on the compiler the instant of cancellation relative to native code is not controlled; the oracle is moment-independent",
 			"unbounded plain recursion is not in the workload (it ends by stack exhaustion, C06)",
@@ -236,6 +243,12 @@ type scenario struct {
 }
 
 func (c07) Run(t *tape.Tape, cfg sim.Config) (res sim.Result) {
+	if cfg.Class == "synctest-deadline" {
+		if runSynctest == nil {
+			panic("harness: class synctest-deadline needs the worker built with go1.26.8 (testing/synctest)")
+		}
+		return runSynctest(t, cfg)
+	}
 	shape := t.Choose(numShapes)
 	yield := cfg.Class == "yielding"
 	pad := tape.Pick(t, []int{0, 1, 7, 40})
